@@ -3,7 +3,7 @@
     No Extract Constant / Extract Inductive directive of our own. *)
 Require Extraction.
 Require Import ExtrOcamlBasic.
-From ZV Require Import Base.Bytes Base.Res Spec.Rfc23 Model.Codec Spec.Stream Spec.Compat Model.Handshake Model.World Model.FairQueue Model.TrySend Model.Proxy Model.Endpoint Model.Runtime Model.Chain Model.PubFan Model.RrSend.
+From ZV Require Import Base.Bytes Base.Res Spec.Rfc23 Model.Codec Spec.Stream Spec.Compat Model.Handshake Model.World Model.FairQueue Model.TrySend Model.Proxy Model.Endpoint Model.Runtime Model.Chain Model.PubFan Model.RrSend Model.DirSend.
 Extraction Language OCaml.
 Separate Extraction
   Bytes.be Bytes.of_be Bytes.lenN Bytes.is_prefix
@@ -20,5 +20,6 @@ Separate Extraction
   Endpoint.parse_endpoint Endpoint.fmt_endpoint
   Chain.chain0 Chain.cstep Chain.quiescent
   PubFan.fstep PubFan.get
-  RrSend.rstep RrSend.rstate0 RrSend.wire_of
+  RrSend.rstep RrSend.rstate0 RrSend.wire_of RrSend.pget
+  DirSend.send_to DirSend.req_send DirSend.req_settled DirSend.sstep
   Runtime.brun Runtime.bstate0 Runtime.drop_socket Runtime.conn_open Runtime.listening.
